@@ -225,7 +225,7 @@ impl Visitor<'_, '_> {
         op: Sp<ast::AssignOpKind>,
         value: &Sp<ast::Expr>,
     ) -> ImplResult {
-        let var_ty = self.check_var(var);
+        let var_ty = self.check_var_for_write(var);
         let value_ty = self.check_expr_as_value(value, op.span);
         let (var_ty, value_ty) = (var_ty?, value_ty?);
 
@@ -258,7 +258,7 @@ impl Visitor<'_, '_> {
         self.require_int(count_ty, count.span, count.span)?;
 
         if let Some(clobber) = clobber {
-            let clobber_ty = self.check_var(clobber)?;
+            let clobber_ty = self.check_var_for_write(clobber)?;
             self.require_same((clobber_ty, count_ty), count.span, (clobber.span, count.span))?;
         }
         Ok(())
@@ -374,7 +374,7 @@ impl ExprTypeChecker<'_, '_> {
 
             ast::Expr::XcrementOp { order: _, op, ref var }
             => {
-                let var_ty = self.check_var(var)?;
+                let var_ty = self.check_var_for_write(var)?;
 
                 self.require_int(var_ty, op.span, var.span)?;
                 ExprType::Value(var_ty)
@@ -469,6 +469,20 @@ impl ExprTypeChecker<'_, '_> {
             };
             self.emit(err)
         })
+    }
+
+    /// Check a variable that is being written to (assigned, incremented, or used as a loop counter).
+    fn check_var_for_write(&self, var: &Sp<ast::Var>) -> ImplResult<ScalarType> {
+        let ty = self.check_var(var)?;
+        if let ast::VarName::Normal { ident, .. } = &var.name {
+            if self.ctx.defs.var_const_expr(self.ctx.resolutions.expect_def(ident)).is_some() {
+                return Err(self.emit(error!(
+                    message("cannot modify a const"),
+                    primary(var, "'{}' is a const", ident),
+                )));
+            }
+        }
+        Ok(ty)
     }
 
     /// Check a function call, and get its return type.
